@@ -473,9 +473,9 @@ def r7_windash(ctx) -> None:
     r.floor("C03.R7", 5)
 
 
-def r9_argument_not_mutated(ctx) -> None:
+def r9_argument_not_mutated(ctx, rid: str = "C03.R9") -> None:
     r, prog = ctx.r, ctx.prog
-    r.rule("C03.R9", "a modifier does not change the string it is given: the first modifier of a chain receives the very object the detection item keeps as original value (for conversion back to a plain data structure), so modify() may only call methods of SigmaString that build a new string")
+    r.rule(rid, "a modifier does not change the string it is given: the first modifier of a chain receives the very object the detection item keeps as original value (for conversion back to a plain data structure), so modify() may only call methods of SigmaString that build a new string")
     mutating = set()
     for cq in prog.subclasses("sigma.types.SigmaString"):
         for name, f in prog.cls(cq).methods.items():
@@ -497,18 +497,18 @@ def r9_argument_not_mutated(ctx) -> None:
                 n += 1
                 loc = f"{f.module.relpath}:{c.lineno}"
                 if c.func.attr in mutating:
-                    r.violation("C03.R9", f.qual, short(c, 80), f"SigmaString.{c.func.attr}() changes the string in place; applied to the original value object it changes what to_plain()/to_dict() write (an escaped \\%PATH\\% is written back as %PATH% and expanded on load)", loc)
+                    r.violation(rid, f.qual, short(c, 80), f"SigmaString.{c.func.attr}() changes the string in place; applied to the original value object it changes what to_plain()/to_dict() write (an escaped \\%PATH\\% is written back as %PATH% and expanded on load)", loc)
                 else:
-                    r.ok("C03.R9", f.qual, f"{short(c, 60)}: builds a new value", loc)
+                    r.ok(rid, f.qual, f"{short(c, 60)}: builds a new value", loc)
         for st in walk_no_nested(f.node):
             if isinstance(st, (ast.Assign, ast.AugAssign)):
                 for t in (st.targets if isinstance(st, ast.Assign) else [st.target]):
                     if isinstance(t, (ast.Attribute, ast.Subscript)) and unparse(t).split(".")[0].split("[")[0] == param:
                         recv = ctx.types.class_names(f.module, t.value) if isinstance(t, ast.Attribute) else []
                         if any(x.endswith((".SigmaString", ".SigmaCasedString")) for x in recv):
-                            r.violation("C03.R9", f.qual, stmt_head(st), "the modifier assigns into the string it was given", f"{f.module.relpath}:{st.lineno}")
-    r.note(f"C03.R9: self-mutating SigmaString methods: {sorted(mutating)}")
-    r.floor("C03.R9", 5)
+                            r.violation(rid, f.qual, stmt_head(st), "the modifier assigns into the string it was given", f"{f.module.relpath}:{st.lineno}")
+    r.note(f"{rid}: self-mutating SigmaString methods: {sorted(mutating)}")
+    r.floor(rid, 5)
 
 
 def _raises_sigma(prog, f: FuncInfo, rs: ast.Raise) -> bool:
